@@ -32,7 +32,7 @@ MIN = {"quick": {"fit_calls": 15000, "equivariance_checks": 3000, "torsion_calls
 
 
 def cases(tier, seed):
-    nfit, per, ntor = (16, 1500, 16) if tier == "quick" else (64, 10000, 320)
+    nfit, per, ntor = (16, 1500, 16) if tier == "quick" else (256, 25000, 1200)
     out = [{"kind": "fit", "seed": seed * 1000 + i, "n": per} for i in range(nfit)]
     out += [{"kind": "torsion", "seed": seed * 1000 + i} for i in range(ntor)]
     return out
